@@ -9,8 +9,10 @@ Definition sd_b2z (b : bool) : Z := if b then 1 else 0.
 Fixpoint sd_zip (a d : list Z) : list sd_req :=
   match a, d with x :: a', y :: d' => mk_sd_req x y :: sd_zip a' d' | _, _ => [] end.
 
-(* [close; deadline; exit_time; exit_code] ++ accepted flags ++ completes flags *)
-Definition entry_shutdown (W G : Z) (arr svc : list Z) : list Z :=
+(* [started] alone when start-up refuses the periods, else
+   [started; close; deadline; exit_time; exit_code] ++ accepted flags ++ completes flags *)
+Definition entry_shutdown (nonneg : bool) (W G : Z) (arr svc : list Z) : list Z :=
   let l := sd_zip arr svc in
-  [sd_close W; sd_deadline W G; sd_exit_time W G l; sd_exit_code W G l]
+  if negb (sd_startable nonneg W G) then [0] else
+  [1; sd_close W; sd_deadline W G; sd_exit_time W G l; sd_exit_code W G l]
   ++ map (fun q => sd_b2z (sd_accepted W q)) l ++ map (fun q => sd_b2z (sd_completes W G q)) l.
